@@ -19,7 +19,7 @@ fn opts(i: usize) -> Options { if i == 0 { Options::default() } else { Options::
 
 fn cases(ob: &str) -> Vec<String> {
     let mut out = vec![];
-    if let Some(seed) = crate::gen::thorough_seed(ob) { for t in crate::gen::texts(seed ^ 19, 400, true) { for o in 0..2 { out.push(format!("locx:{}:{}", crate::hex(t.as_bytes()), o)); } } }
+    if let Some(seed) = crate::gen::thorough_seed(ob) { for t in crate::gen::texts(seed ^ 19, crate::gen::scale(ob, 400), true) { for o in 0..2 { out.push(format!("locx:{}:{}", crate::hex(t.as_bytes()), o)); } } }
     for i in 0..valid().len() { out.push(format!("prefix:{}:0", i)); }
     for t in ["(a b)", "\"ab\"", "?a", "\"\\u03bb\"", "[1 2]", "(a . b)", "1.5e3"] { out.push(format!("eprefix:{}", crate::hex(t.as_bytes()))); }
     for i in 0..garbage().len() { for o in 0..2 { out.push(format!("loc:{}:{}", i, o)); } }
